@@ -138,3 +138,24 @@ CHECKS.update({
     },
 })
 NOT_APPLICABLE = {}
+
+
+# ---- additions made while the checks were strengthened against seeded changes (see DESIGN.md section 6)
+CHECKS["C01"]["note"] += " Shapes now include pydantic models with Any-typed fields (one filled in place after construction) and a tuple holding a list that keeps growing across loop iterations."
+CHECKS["C02"]["note"] += " Families also cover sibling / sub-classes of dataclass-like types; a reproduced counterexample is additionally replayed in a real pytest process (create,fix then disable) and the outcome is stored with the replay."
+CHECKS["C03"]["text"] += " (c) import insertion through the real hooks: in two-file sessions only the file whose new code needs HasRepr gets the import (both processing orders); with a module docstring / __future__ import / comment / import block at the top the file still compiles, keeps its docstring and changes nowhere else."
+CHECKS["C04"]["note"] += " Later additions: the config of an xdist *worker* process, xfail marks on the function vs inherited from class/module vs xfail(False) (the request stub models own and inherited marks), and a byte-level 'nothing outside the snapshot arguments changes except the needed import' oracle on both files. Three defects found here were repaired (613a43d, 04af9b0; fe1922b under C07)."
+CHECKS["C05"]["note"] += " Also: sub-snapshot keys that are accessed but not compared, and snapshots that no test uses in the run (update must not change their value). One defect found there was repaired (d3e9004)."
+CHECKS["C06"]["text"] += " Sessions disabled by flag, CI variable, xdist or an xdist worker config are run through the real hooks with any subset of three tests marked xfail: snapshot(v) is v in every test."
+CHECKS["C07"]["note"] += " A call site shared by two test items is covered with and without an argument (missing values are counted per item)."
+CHECKS["C08"]["note"] += " Templates include values mutated after the assertion (tuple holding a list)."
+CHECKS["C09"]["note"] += " Templates include nested inner snapshots and constructor calls with a deleted default keyword next to an inserted one. One defect found there was repaired (e4ad14a)."
+CHECKS["C10"]["note"] += " Four defects found here were repaired (5982a93, 44e1aef, d2ad395 and, via the seed, the default-keyword mapping)."
+CHECKS["C12"]["note"] += " The formatter hand-off SourceFile._format is additionally executed by engine B on literals of 4/6 (8) arbitrary plain characters with the formatter modelled as identity+newline; the corpus is also written through fix/trim flows over existing values."
+CHECKS["C13"]["note"] += " The session step also covers review mode (all-yes / all-no answers) and references written with the complete hash. One defect found in the thorough tier was repaired (cd6248c)."
+CHECKS["C14"]["note"] += " Also: two byte-identical test files (equal code objects) with different observations; re-evaluation with fix/update approved."
+CHECKS["C15"]["note"] += " Fault kinds: exception, non-zero exit, unparsable output, death by signal (negative return code, truncated but parsable output); oracle includes 'nothing outside the snapshot arguments is lost'."
+CHECKS["C16"]["note"] += " The three-formatter differential includes concrete string / bytes leaves (both quote kinds, blanks at the ends)."
+CHECKS["C17"]["note"] += " Values include a tuple holding a list."
+CHECKS["C18"]["note"] += " Templates include non-ASCII text left of the edited expressions."
+CHECKS["C19"]["note"] += " Templates include a two-file project and HasRepr values inserted into existing lists / dicts / sub-snapshots."
